@@ -142,3 +142,14 @@ Definition sample_cfg_cut : list item :=
 
 Example sample_cfg_cut_accepted : explain_all [1; 2; 3] sample_cfg_cut = [].
 Proof. vm_compute. reflexivity. Qed.
+
+(* the abstract commit index of node 2 (2) is ahead of what the real node
+   reports after installing a snapshot (1): the abstract node keeps the higher
+   value, the observed one lags *)
+Definition sample_cfg_install_behind : list item :=
+  firstn 10 sample_cfg_history ++
+  [ ([AInstall 2 1 1 [sn1] 1], [(2, mkO 1 Follower [sn1; sd5] 2 1)]) ].
+
+Example sample_cfg_install_behind_accepted :
+  explain_all [1; 2; 3] sample_cfg_install_behind = [].
+Proof. vm_compute. reflexivity. Qed.
